@@ -88,7 +88,7 @@ def tlc_graph(module, wd, constants, invariants, workers=6, timeout=1500, name="
 # ---------------------------------------------------------------------------------------------
 C19_TIER = {
     "quick": dict(MaxIdx=3, MaxTerm=3, MaxLApp=2, depth=3, random=4000, rlen=10, max_runs=300000),
-    "thorough": dict(MaxIdx=4, MaxTerm=3, MaxLApp=2, depth=4, random=40000, rlen=12, max_runs=3000000),
+    "thorough": dict(MaxIdx=4, MaxTerm=3, MaxLApp=2, depth=3, random=60000, rlen=12, max_runs=3000000),
 }
 
 
